@@ -317,12 +317,12 @@ COMPONENTS = [
     Component('reassign', check_reassign, strategy=reassign_cases,
               nontrivial=lambda c: c['args'] != c['args2'],
               classes=lambda c: ['inplace' if c['inplace'] else 'setattr'],
-              budget={'quick': 6400, 'thorough': 160000},
+              budget={'quick': 6400, 'thorough': 80000},
               describe='random first and second assignment on one object'),
     Component('reentrant', check_reentrant, strategy=reentrant_cases,
               nontrivial=lambda c: True,
               classes=lambda c: ['class=' + c['cls'].split('.')[0]],
-              budget={'quick': 1600, 'thorough': 32000},
+              budget={'quick': 1600, 'thorough': 16000},
               describe='frames whose table arguments call back into the library (encode '
                        'and decode another frame on the same thread) while being encoded'),
     Component('accepted-offtypes', check_offtype, cases=offtype_cases,
@@ -331,12 +331,12 @@ COMPONENTS = [
                        'type: refused, or accepted and decoded equal'),
     Component('surrogates', check_lenient, strategy=lenient_cases,
               classes=lambda c: ['class=' + c['cls'].split('.')[0]],
-              budget={'quick': 6400, 'thorough': 160000},
+              budget={'quick': 6400, 'thorough': 80000},
               describe='str values with lone surrogates (incl. the surrogateescape image '
                        'of valid UTF-8) in every unconstrained string / table slot: '
                        'refused, or accepted and unchanged'),
     Component('frames', check, strategy=lambda tier: S.method_cases(8, True),
               nontrivial=nontrivial, classes=classes,
-              budget={'quick': 24000, 'thorough': 640000},
+              budget={'quick': 24000, 'thorough': 320000},
               describe='random valid argument assignments, all classes'),
 ]
